@@ -29,4 +29,6 @@ for spec, names in (("C13", ("dup",)), ("C14", ("dup", "dup_emptied")), ("C03", 
     for h in m.HARNESSES:
         if h["name"] in names:
             h2 = dict(h); h2["name"] = spec + "_" + h["name"]; HARNESSES.append(h2)
-OUTSIDE = ["identical XML export of the copy (C05)", "modification histories applied to either copy beyond the single mutations asserted", "destroy order / leak checking (free paths are executed only on concrete objects)"]
+_c5 = _load("C05")
+for h in _c5.C12_EXTRA: h2 = dict(h); h2["name"] = "C05_" + h["name"]; HARNESSES.append(h2)
+OUTSIDE = [ "modification histories applied to either copy beyond the single mutations asserted", "destroy order / leak checking (free paths are executed only on concrete objects)"]
